@@ -100,9 +100,26 @@ impl Rig {
 struct TimeMap {
     base_s: u64,
     unit_s: u64,
+    /// which real document ids stand for the model's keys in this behaviour
+    ids: usize,
 }
 
+/// The model's keys are atoms; real document ids have structure (numeric order vs the order of their bytes or of their
+/// decimal text, sign bit, boundaries).  Behaviours take turns through these assignments.
+const ID_MAPS: [[u64; 3]; 6] = [
+    [1, 2, 3],
+    [256, 1, 1 << 40],
+    [u64::MAX, 0, (i64::MAX as u64) + 1],
+    [2, 1, 3],
+    [1 << 32, (1 << 32) + 1, 255],
+    [10, 9, 100],
+];
+
 impl TimeMap {
+    fn id(&self, k: u64) -> u64 {
+        let base = ID_MAPS[self.ids % ID_MAPS.len()][((k - 1) % 3) as usize];
+        if k > 3 { base.wrapping_add(k * 1_000) } else { base }
+    }
     fn stamp(&self, v: &Value) -> HLCTimestamp {
         let a = v.as_array().unwrap();
         HLCTimestamp::new(Duration::from_secs(self.base_s + a[0].as_u64().unwrap() * self.unit_s), a[1].as_u64().unwrap() as u16, a[2].as_u64().unwrap() as u8)
@@ -121,7 +138,7 @@ impl TimeMap {
 }
 
 fn items(tm: TimeMap, v: &Value) -> Vec<(u64, HLCTimestamp)> {
-    v.as_array().unwrap().iter().map(|p| (p[0].as_u64().unwrap(), tm.stamp(&p[1]))).collect()
+    v.as_array().unwrap().iter().map(|p| (tm.id(p[0].as_u64().unwrap()), tm.stamp(&p[1]))).collect()
 }
 
 fn docs_of(it: &[(u64, HLCTimestamp)]) -> DocVec<Document> {
@@ -161,9 +178,10 @@ async fn run_behaviour(rig: &Rig, b: &Value, idx: u64, f: u64, coarse: bool, tra
     let ks = format!("b{}", idx);
     // tracked mode: a second keyspace that receives exactly what concerns the last key of the universe (same stamps,
     // same deliveries, same losses): the real poller rounds then have two keyspaces that change at different moments
-    let shadow: Option<String> = tracked.then(|| format!("s{}", idx));
+    // (its name is the first keyspace's name with a suffix: names are all a node can tell keyspaces by)
+    let shadow: Option<String> = tracked.then(|| format!("b{}-kv", idx));
     let skey: u64 = b["expect"].as_array().map(|a| a.len() as u64).unwrap_or(0);
-    let tm = TimeMap { base_s: 100_000 + idx * 40_000, unit_s: 3600 / f };
+    let tm = TimeMap { base_s: 100_000 + idx * 40_000, unit_s: 3600 / f, ids: idx as usize };
     let mut exch: BTreeMap<(u64, u64), Exchange> = BTreeMap::new();
     let steps = b["hist"].as_array().unwrap();
     let driver_client = |to: &NodeRig| RpcClient::<Cs>::new(rig.driver_net.get_or_connect(to.addr));
@@ -245,7 +263,7 @@ async fn run_behaviour(rig: &Rig, b: &Value, idx: u64, f: u64, coarse: bool, tra
                     out.drift.push(format!("step {i}: node {} issued {} where the model has {}", n.id, tm.back(&ts), tm.back(&want)));
                     return out;
                 }
-                let keys: Vec<u64> = s["keys"].as_array().unwrap().iter().map(|k| k.as_u64().unwrap()).collect();
+                let keys: Vec<u64> = s["keys"].as_array().unwrap().iter().map(|k| tm.id(k.as_u64().unwrap())).collect();
                 let its: Vec<(u64, HLCTimestamp)> = keys.iter().map(|k| (*k, ts)).collect();
                 let actor = n.grp().get_or_create_keyspace(&ks).await;
                 let ok = match (del, keys.len() > 1) {
@@ -258,8 +276,8 @@ async fn run_behaviour(rig: &Rig, b: &Value, idx: u64, f: u64, coarse: bool, tra
                     out.tool_error = Some(format!("step {i}: local request failed"));
                     return out;
                 }
-                if let (Some(sk), true) = (shadow.as_ref(), keys.contains(&skey)) {
-                    let its: Vec<(u64, HLCTimestamp)> = vec![(skey, ts)];
+                if let (Some(sk), true) = (shadow.as_ref(), keys.contains(&tm.id(skey))) {
+                    let its: Vec<(u64, HLCTimestamp)> = vec![(tm.id(skey), ts)];
                     let actor = n.grp().get_or_create_keyspace(sk).await;
                     let _ = match del {
                         false => actor.send(Set { source: 0, doc: docs_of(&its).remove(0), ctx: None, _marker: PhantomData::<St> }).await.is_ok(),
@@ -282,7 +300,7 @@ async fn run_behaviour(rig: &Rig, b: &Value, idx: u64, f: u64, coarse: bool, tra
                 let mk_ctx = || Some(Context { node_id: sender, node_addr: sender_addr });
                 let ctx = mk_ctx();
                 let client = driver_client(to);
-                let only = |v: &Vec<(u64, HLCTimestamp)>| -> Vec<(u64, HLCTimestamp)> { v.iter().filter(|e| e.0 == skey).cloned().collect() };
+                let only = |v: &Vec<(u64, HLCTimestamp)>| -> Vec<(u64, HLCTimestamp)> { v.iter().filter(|e| e.0 == tm.id(skey)).cloned().collect() };
                 let (s_its, s_removed, s_modified) = (only(&its), only(&removed), only(&modified));
                 if let Some(sk) = shadow.as_ref() {
                     // the shadow keyspace gets its part of singles and bulk messages as messages of its own; its part of a
@@ -555,7 +573,7 @@ async fn run_behaviour(rig: &Rig, b: &Value, idx: u64, f: u64, coarse: bool, tra
     }
 
     // final observation
-    let keys: Vec<u64> = b["expect"].as_array().map(|a| (1..=a.len() as u64).collect()).unwrap_or_default();
+    let keys: Vec<u64> = b["expect"].as_array().map(|a| (1..=a.len() as u64).map(|k| tm.id(k)).collect()).unwrap_or_default();
     let mut reads = serde_json::Map::new();
     let mut final_sets: BTreeMap<u64, Set2> = BTreeMap::new();
     for (id, n) in &rig.nodes {
@@ -605,7 +623,7 @@ async fn run_behaviour(rig: &Rig, b: &Value, idx: u64, f: u64, coarse: bool, tra
                     Some(d) => tm.back(&d.last_updated()),
                     None => json!([]),
                 };
-                let want = if *k == skey { b["expect"][(skey - 1) as usize].clone() } else { json!([]) };
+                let want = if *k == tm.id(skey) { b["expect"][(skey - 1) as usize].clone() } else { json!([]) };
                 if got != want {
                     out.why.push(("C01".into(), format!("node {id}, second keyspace: reads key {k} = {got}, last-writer-wins over the operations issued there gives {want}")));
                 }
